@@ -22,7 +22,8 @@ claim('C11',
       "proved admissible in every token context of the lexical grammar and the window is proved to cover the statement.",
       "ASCII lines; ast positions of Name/arg nodes equal string indices (parser assumption, so np(node) sites are trusted); "
       "the token-context table is transcribed from the language reference; `except ... as` uses the clause position by the "
-      "property's own rule.",
+      "property's own rule; one known finding (D34: the implicit binding of a submodule reached through a dotted import is reported at "
+      "(0, 0), an answer the suite pins).",
       "contract-based deductive verification: loop-invariant cut on the real find_id_loc over index-quantified strings; ground call-site obligations",
       "DESIGN.md 3 C11")
 claim('C10',
@@ -67,7 +68,8 @@ claim('C05',
       "(global-declared -> module, local -> never inherited, otherwise enclosing scope; class bodies skipped by methods), Flow.add_name "
       "routing and RI_locals, the names property of every scope class, global / nonlocal declarations, and the region every "
       "decorator / default / annotation / base / keyword is evaluated in.",
-      "Induction on the depth of the scope chain is stated; comprehension scopes are compared as bindings of the enclosing scope, as the property says.",
+      "Induction on the depth of the scope chain is stated; comprehension scopes are compared as bindings of the enclosing scope, as the property says; one known finding (D32: PEP 695 type "
+      "parameters are not a scope).",
       "contract-based deductive verification: symbolic membership flags on the real scope functions, z3", "DESIGN.md 3 C05")
 claim('C13',
       "Every per-construct obligation of C01-C03 is discharged with symbolic source positions constrained only by token order, so it holds "
@@ -108,7 +110,8 @@ claim('C08',
       "RuntimeName.call over an arbitrary failing constructor; the re-entrancy guard of EvalCtx.evaluate.",
       "Termination and whole-API totality are not decided (no decreases measure across the memoised mutual recursion of the evaluator; only "
       "the functions under contract are covered - the evaluator's dispatch is exercised but not enumerated); ast.parse conforms to the ASDL "
-      "signatures the node classes document.",
+      "signatures the node classes document; one known finding (D35: RecursionError on the first request behind about 130 compound "
+      "statements in one body).",
       "contract-based deductive verification: exhaustive one-level skeletons derived from the ASDL signatures, executed on the real functions",
       "DESIGN.md 3 C08")
 claim('C06',
@@ -117,7 +120,8 @@ claim('C06',
       "own body, the bases' class tables in order; the merge objects (first non-None / union), the grouping of attribute assignments "
       "(loop invariant) and the binding of a method's first parameter are proved against their contracts.",
       "Induction over the hierarchy depth is stated; hierarchies without repeated ancestors (C3 == depth-first left-to-right), as the property "
-      "says; that the evaluator yields the right kind of value for each expression form is assumed (only its guards are verified).",
+      "says; that the evaluator yields the right kind of value for each expression form is assumed (only its guards are verified); one known "
+      "finding (D36: the value of a method that returns self is an instance of the defining class, not of the receiver's class).",
       "contract-based deductive verification: layered-table abstraction of the real merge functions with loop invariants", "DESIGN.md 3 C06")
 claim('C07',
       "norm_package is proved over an abstract directory chain (loop invariants for the climb and for the collection of package ancestors) "
@@ -125,15 +129,17 @@ claim('C07',
       "candidate in the earlier roots) against importlib's path finder, including the source/compiled/loaded case split, ImportError "
       "exactly when nothing is found, and the cache branches; split_pkg/join_pkg over symbolic strings; ImportedName.resolve's order.",
       "os.path / os.listdir as functions of an abstract file system; at most one candidate per root for a name (the property's domain); "
-      "list_packages is a BOUNDED stand-in (64 directory configurations, reported under `bounded`, not counted as proved); one known finding "
-      "(relative import climbing through a directory that is not a package).",
+      "list_packages is a BOUNDED stand-in (directory configurations against pkgutil, reported under `bounded`, not counted as proved); the "
+      "two defects recorded at first (a relative import climbing through a directory that is no package, a dotted name found under a later "
+      "root) were repaired later and their obligations hold.",
       "contract-based deductive verification: loop invariants over an abstract file system on the real functions; bounded stand-in for list_packages",
       "DESIGN.md 3 C07")
 claim('C09',
       "Inv_cache: get_module over an abstract module store (symbolic `file changed` flags and dependency edge) serves a cached module only when "
       "its own file is unchanged; check_changes empties the per-request cache; SourceModule.changed/scope contracts; the server wraps every "
-      "request in check_changes. The dependency-closure obligation fails on the current tree and is recorded as known finding D19 (history "
-      "replayed on real files).",
+      "request in check_changes, and assist / location / lint enter one themselves (supp.project.request, under contract). The "
+      "dependency-closure obligation, which failed on the pinned tree (D19), holds since the repair (a module is as old as the modules it "
+      "star-imports; imported names are resolved once per request).",
       "Dependency-closure lemma stated (frame scan of file-system reads and cross-module references); histories are covered by induction on "
       "the invariant, not enumerated; deleting files / shadowing from an earlier root are outside the domain.",
       "contract-based deductive verification: ghost-state (valid / deps) invariant on the real cache functions", "DESIGN.md 3 C09")
